@@ -285,6 +285,17 @@ impl<'a> Gen<'a> {
         }
     }
 
+    /// How far the simulated clock moves before an external change of a user file: whole
+    /// seconds, or less than a second (two saves within the same second of the clock, down
+    /// to the next nanosecond), or seconds plus a fraction.
+    fn clock_step(&mut self, max_s: u64) -> u64 {
+        match self.rng.weighted(&[45, 35, 20]) {
+            0 => self.rng.range(1, max_s) * 1_000_000_000,
+            1 => *self.rng.pick(&[1u64, 1_000, 1_000_000, 40_000_000, 300_000_000, 900_000_000]),
+            _ => self.rng.range(1, max_s) * 1_000_000_000 + self.rng.range(1, 999_999_999),
+        }
+    }
+
     /// A save that fails without killing the process (the process-killing ones are C10's).
     fn failing_save(&mut self) -> WriteFault {
         match self.rng.weighted(&[20, 20, 15, 25, 20]) {
@@ -406,6 +417,39 @@ impl<'a> Gen<'a> {
                 }
             }
         }
+        // a family of learned words: a stem and the same stem with one and with two known
+        // suffixes behind it are each learned (longest first or shortest first), then some of
+        // them are learned again with another candidate - entries that are derived from one
+        // another, found through one another and replaced under one another
+        if self.rng.pct(7) && cfgs[0].is_phonetic() && cfgs[0].has(PHON_SUG) {
+            let sel0 = if valid_sel { Sel::Presel } else { Sel::Raw(0) };
+            let stem: String = self.rng.pick(&self.env.dict_spellings).chars().filter(|c| c.is_ascii_alphabetic()).take(5).collect();
+            let s1 = self.short_suffix();
+            let s2 = self.short_suffix();
+            let mut family = vec![format!("{}{}{}", stem, s1, s2), format!("{}{}", stem, s1), stem.clone()];
+            if self.rng.coin() {
+                family.reverse();
+            }
+            if !stem.is_empty() {
+                let first = self.rng.range(1, 3) as u8;
+                for t in &family {
+                    self.type_text(&mut ops, 0, t, sel0);
+                    ops.push(Op::Commit { h: 0, idx: if self.rng.pct(70) { Idx::Rel(first) } else { Idx::Other(self.rng.next_u64() as u8) } });
+                }
+                if self.rng.pct(25) {
+                    ops.push(Op::Restart { h: 0 });
+                }
+                for _ in 0..self.rng.range(1, 3) {
+                    let t = if self.rng.pct(60) { stem.clone() } else { self.rng.pick(&family).clone() };
+                    self.type_text(&mut ops, 0, &t, sel0);
+                    ops.push(Op::Commit { h: 0, idx: if self.rng.pct(60) { Idx::Rel(first + 1) } else { Idx::Other(self.rng.next_u64() as u8) } });
+                }
+                for t in &family {
+                    self.type_text(&mut ops, 0, t, sel0);
+                    ops.push(Op::Finish { h: 0 });
+                }
+            }
+        }
         while ops.len() < target {
             let h = self.rng.usize(n_hosts);
             let hb = h as u8;
@@ -429,12 +473,13 @@ impl<'a> Gen<'a> {
                 let w = self.word();
                 let core: String = w.chars().filter(|c| c.is_ascii_alphabetic()).take(8).collect();
                 let v = self.autocorrect_value();
-                let mt = match self.rng.weighted(&[60, 15, 25]) {
+                let mt = match self.rng.weighted(&[55, 13, 22, 10]) {
                     0 => Mt::Now,
                     1 => Mt::Tie,
+                    3 => Mt::Ahead(self.rng.range(1, 200 * 365 * 86_400) * 1_000_000_000),
                     _ => Mt::Back(self.rng.range(1, 100_000) * 1_000_000_000),
                 };
-                ops.push(Op::Clock { dt: self.rng.range(1, 50) * 1_000_000_000 });
+                ops.push(Op::Clock { dt: self.clock_step(50) });
                 if !core.is_empty() {
                     ops.push(Op::SetFile { file: FileId::Autocorrect, st: FileSt::Text(serde_json::json!({ core: v }).to_string()), mt });
                 }
@@ -923,7 +968,7 @@ impl<'a> Gen<'a> {
                     second.push(t);
                 }
                 let mut ops = self.interleave(first);
-                ops.push(Op::Clock { dt: self.rng.range(1, 50) * 1_000_000_000 });
+                ops.push(Op::Clock { dt: self.clock_step(50) });
                 if st == FileSt::MoveAside {
                     // every context that exists re-loads while the list is away
                     let mut mid: Vec<Vec<Op>> = Vec::new();
@@ -936,7 +981,7 @@ impl<'a> Gen<'a> {
                     }
                     ops.push(Op::SetFile { file: FileId::Autocorrect, st: FileSt::MoveAside, mt: Mt::Now });
                     ops.extend(self.interleave(mid));
-                    ops.push(Op::Clock { dt: self.rng.range(1, 50) * 1_000_000_000 });
+                    ops.push(Op::Clock { dt: self.clock_step(50) });
                     ops.push(Op::SetFile { file: FileId::Autocorrect, st: FileSt::MoveBack, mt: Mt::Now });
                 } else {
                     ops.push(Op::SetFile { file: FileId::Autocorrect, st, mt: Mt::Now });
@@ -1004,7 +1049,7 @@ impl<'a> Gen<'a> {
         }
         let single = |s: &str| s.chars().count() == 1;
         let first = |s: &str| s.chars().next().unwrap();
-        let class = self.rng.weighted(&[26, 16, 10, 8, 6, 6, reph_weight, 4, 4, 6, 3, 2, 3, 3]);
+        let class = self.rng.weighted(&[26, 16, 10, 8, 6, 6, reph_weight, 4, 4, 6, 3, 2, 3, 3, 3]);
         let vals: Vec<&str> = match class {
             0 => Self::values_of_class(l, |s| single(s) && fm::is_consonant(first(s))),
             1 => Self::values_of_class(l, |s| single(s) && fm::is_mapped_kar(first(s))),
@@ -1019,6 +1064,8 @@ impl<'a> Gen<'a> {
             10 => vec!["\u{09D7}", "\u{200C}", "\u{200D}"],
             11 => Self::values_of_class(l, |s| single(s) && ('\u{09E6}'..='\u{09EF}').contains(&first(s))),
             12 => vec!["\u{09C1}", "\u{09C2}", "\u{09C3}"],
+            // characters beyond the Bengali block (2, 3 and 4 bytes; a layout may bind any)
+            14 => Self::values_of_class(l, |s| s.chars().any(|c| c > '\u{09FF}' && c != '\u{200C}' && c != '\u{200D}') || s.chars().all(|c| ('\u{0080}'..'\u{0980}').contains(&c) || c.is_ascii_alphabetic())),
             _ => Self::values_of_class(l, |_| true),
         };
         let vals: Vec<&str> = vals.into_iter().filter(|v| l.by_value.contains_key(*v)).collect();
@@ -1104,7 +1151,20 @@ impl<'a> Gen<'a> {
         let word_ops = |g: &mut Gen, ops: &mut Vec<Op>, n: usize| {
             match l {
                 None => {
-                    let t: String = g.text().chars().take(n.max(1)).collect();
+                    let t: String = if n > 12 {
+                        // a composition of several dozen keys
+                        let w = g.word();
+                        let mut t = String::new();
+                        while t.len() < n {
+                            t.push_str(if g.rng.pct(60) { &w } else { "o" });
+                            if g.rng.pct(30) {
+                                t.push(*g.rng.pick(LETTERS) as char);
+                            }
+                        }
+                        t.chars().take(n).collect()
+                    } else {
+                        g.text().chars().take(n.max(1)).collect()
+                    };
                     g.type_text(ops, 0, &t, Sel::Presel);
                     if g.rng.pct(30) {
                         for _ in 0..g.rng.range(1, 3) {
@@ -1154,8 +1214,9 @@ impl<'a> Gen<'a> {
                 ops.push(t);
             }
         }
-        // history H
-        let n = self.rng.range(1, 10) as usize;
+        // history H (now and then a composition of several dozen keys: buffers that grow
+        // past their first capacity, lists of long words)
+        let n = if self.rng.pct(6) { self.rng.range(18, 48) as usize } else { self.rng.range(1, 10) as usize };
         let h_start = ops.len();
         word_ops(self, &mut ops, n);
         let h_ops: Vec<Op> = ops[h_start..].to_vec();
@@ -1193,7 +1254,7 @@ impl<'a> Gen<'a> {
             if self.rng.pct(10) {
                 ops.push(Op::Bs { h: 0, ctrl: false }); // backspace while idle
             }
-            let n = self.rng.range(1, 8) as usize;
+            let n = if self.rng.pct(4) { self.rng.range(18, 48) as usize } else { self.rng.range(1, 8) as usize };
             if !h_ops.is_empty() && self.rng.pct(22) {
                 // the same word (or a beginning of it) again
                 let upto = if self.rng.coin() { h_ops.len() } else { self.rng.range(1, h_ops.len() as u64) as usize };
@@ -1264,6 +1325,33 @@ impl<'a> Gen<'a> {
         cfg.opts |= PHON_SUG;
         let mut ops = vec![Op::Spawn { h: 0, cfg }];
         let mut learned: Vec<String> = Vec::new();
+        // a user who has been learning for years: now and then the store already holds several
+        // hundred choices (tens of kilobytes), a few of them for words this run types again
+        let mut prelude = Prelude::default();
+        if self.rng.pct(7) {
+            let mut m = serde_json::Map::new();
+            let n = self.rng.range(150, 900);
+            for i in 0..n {
+                let k = format!("zq{}{}", self.random_letters(4, 6).to_ascii_lowercase(), i);
+                let k: String = k.chars().map(|c| if c.is_ascii_digit() { (b'a' + (c as u8 - b'0')) as char } else { c }).collect();
+                let v: String = (0..self.rng.range(2, 5)).map(|_| char::from_u32(0x0995 + self.rng.below(30) as u32).unwrap()).collect();
+                m.insert(k, serde_json::Value::String(v));
+            }
+            let mut probe: Option<Host> = None;
+            for _ in 0..self.rng.range(1, 3) {
+                let w: String = self.rng.pick(&self.env.dict_spellings).chars().filter(|c| c.is_ascii_alphabetic()).take(8).collect();
+                if w.is_empty() {
+                    continue;
+                }
+                let cands = self.probe_candidates(&mut probe, cfg.with(SMART_QUOTE, false), &w);
+                if cands.len() > 1 {
+                    let c = cands[1 + self.rng.usize(cands.len() - 1)].clone();
+                    m.insert(w.clone(), serde_json::Value::String(c));
+                    learned.push(w);
+                }
+            }
+            prelude.store = Some(serde_json::Value::Object(m).to_string());
+        }
         let words = self.rng.range(2, 12);
         let mut restarts = 0;
         for _ in 0..words {
@@ -1323,7 +1411,7 @@ impl<'a> Gen<'a> {
             self.type_and_refresh(&mut ops, 0, &t);
             ops.push(Op::Finish { h: 0 });
         }
-        Plan { scenario: Scenario::LearnedDurability, hash_seed: self.rng.next_u64(), prelude: Prelude::default(), ops }
+        Plan { scenario: Scenario::LearnedDurability, hash_seed: self.rng.next_u64(), prelude, ops }
     }
 
     // ------------------------------------------------------------------ C10
@@ -1559,9 +1647,10 @@ impl<'a> Gen<'a> {
                     let value = self.autocorrect_value();
                     let doc = serde_json::json!({ core: value }).to_string();
                     ops.push(Op::Clock { dt: 1_000_000_000 });
-                    let mt = match self.rng.weighted(&[80, 8, 12]) {
+                    let mt = match self.rng.weighted(&[72, 8, 12, 8]) {
                         0 => Mt::Now,
                         1 => Mt::Tie,
+                        3 => Mt::Ahead(self.rng.range(1, 200 * 365 * 86_400) * 1_000_000_000),
                         _ => Mt::Back(self.rng.range(1, 100_000) * 1_000_000_000),
                     };
                     ops.push(Op::SetFile { file: FileId::Autocorrect, st: FileSt::Text(doc), mt });
@@ -1572,7 +1661,7 @@ impl<'a> Gen<'a> {
                 }
             }
             if self.rng.pct(25) {
-                ops.push(Op::Clock { dt: self.rng.range(1, 90) * 1_000_000_000 });
+                ops.push(Op::Clock { dt: self.clock_step(90) });
             }
         }
         // faults stop; recovery within one commit
@@ -1688,8 +1777,18 @@ impl<'a> Gen<'a> {
                 let k = ac.keys().next().cloned().unwrap();
                 ac.remove(&k);
             }
-            ops.push(Op::Clock { dt: self.rng.range(1, 5) * 1_000_000_000 });
-            let mt = if clock_faults && e > 0 { if self.rng.coin() { Mt::Tie } else { Mt::Back(5_000_000_000) } } else { Mt::Now };
+            ops.push(Op::Clock { dt: self.clock_step(5) });
+            let mt = if clock_faults && e > 0 {
+                match self.rng.weighted(&[40, 40, 20]) {
+                    0 => Mt::Tie,
+                    1 => Mt::Back(5_000_000_000),
+                    _ => Mt::Ahead(self.rng.range(1, 200 * 365 * 86_400) * 1_000_000_000),
+                }
+            } else if clock_faults && self.rng.pct(15) {
+                Mt::Ahead(self.rng.range(1, 200 * 365 * 86_400) * 1_000_000_000)
+            } else {
+                Mt::Now
+            };
             ops.push(Op::SetFile { file: FileId::Autocorrect, st: FileSt::Text(serde_json::Value::Object(ac.clone()).to_string()), mt });
             if e + 1 < edits {
                 // the context sees the intermediate version
@@ -1723,7 +1822,7 @@ impl<'a> Gen<'a> {
                 if !core.is_empty() {
                     let v = self.autocorrect_value();
                     ac.insert(core, serde_json::Value::String(v));
-                    ops.push(Op::Clock { dt: self.rng.range(1, 5) * 1_000_000_000 });
+                    ops.push(Op::Clock { dt: self.clock_step(5) });
                     ops.push(Op::SetFile { file: FileId::Autocorrect, st: FileSt::Text(serde_json::Value::Object(ac.clone()).to_string()), mt: Mt::Now });
                 }
             }
@@ -1946,7 +2045,9 @@ impl<'a> Gen<'a> {
                 ops.push(Op::Update { h: 0, cfg: base });
                 ops.push(Op::Update { h: 1, cfg: base.with(KAR_ORDER, true) });
             }
-            let syllables = self.rng.range(1, if self.tier == Tier::Quick { 5 } else { 6 });
+            // (now and then one composition of a hundred characters and more: limits on the
+            // composition bite at different keys in the two orders if they count keys or bytes)
+            let syllables = if self.rng.pct(2) { self.rng.range(30, 70) } else { self.rng.range(1, if self.tier == Tier::Quick { 5 } else { 6 }) };
             let mut abandoned = false;
             for si in 0..syllables {
                 if self.rng.pct(if si > 0 { 5 } else { 3 }) {
